@@ -214,6 +214,16 @@ func c12Tree(key string, file *ast.File, r *h.Rand, attach int, validate bool) h
 				return res
 			}
 			a, b := strings.Split(string(out), "\n"), strings.Split(string(fm), "\n")
+			if validate && indentOnly(a, b) {
+				// recorded finding KF-C12-INDENT (fixture funclit_multiline_result_in_return): identified by its mechanism —
+				// the only difference go/format makes is ADDING leading tabs to continuation lines; any other
+				// non-fixed-point, and any such difference on standard-library files or fixtures, keeps its own identity
+				res.Input = string(out)
+				res.Detail = "tree: " + key
+				res.Key = c12IndentKey
+				res.Verdict, res.Kind = h.Violated, "not-gofmt-fixed-point:indent-only"
+				return res
+			}
 			d := ""
 			for i := range a {
 				if i >= len(b) || a[i] != b[i] {
@@ -232,6 +242,27 @@ func c12Tree(key string, file *ast.File, r *h.Rand, attach int, validate bool) h
 	return res
 }
 
+const c12IndentKey = "generated trees: continuation lines of a multi-line operand inside a multi-line expression list are indented one level less than go/format indents them"
+
+// indentOnly reports whether b differs from a only by additional leading tabs.
+func indentOnly(a, b []string) bool {
+	if len(a) != len(b) {
+		return false
+	}
+	diff := false
+	for i := range a {
+		if a[i] == b[i] {
+			continue
+		}
+		ta, tb := strings.TrimLeft(a[i], "\t"), strings.TrimLeft(b[i], "\t")
+		if ta != tb || len(b[i]) <= len(a[i]) {
+			return false
+		}
+		diff = true
+	}
+	return diff
+}
+
 func c12N(tier string) (std, asts, cm int) {
 	if tier == "thorough" {
 		return len(stdFileList()), 40000, 10000
@@ -239,8 +270,25 @@ func c12N(tier string) (std, asts, cm int) {
 	return 1500, 8000, 3000
 }
 
+func c12Fixtures() []string {
+	fs, _ := filepath.Glob(filepath.Join(h.Root(), "fixtures", "c12", "*.go.txt"))
+	sort.Strings(fs)
+	return fs
+}
+
 func c12Run(tier string, seed uint64, i int) []h.Result {
-	nstd, nast, _ := c12N(tier)
+	nstd, nast, ncm := c12N(tier)
+	if i >= nstd+nast+ncm { // fixture trees (regression inputs and recorded findings)
+		fn := c12Fixtures()[i-nstd-nast-ncm]
+		f, err := parser.ParseFile(token.NewFileSet(), fn, nil, parser.SkipObjectResolution)
+		if err != nil {
+			return []h.Result{{Key: "fixture " + filepath.Base(fn), Verdict: h.Skip, Kind: "fixture-does-not-parse", Detail: err.Error()}}
+		}
+		ref.StripPositions(f)
+		res := c12Tree("fixture "+filepath.Base(fn), f, h.NewRand(1), 0, false)
+		res.Tag("src:fixture")
+		return []h.Result{res}
+	}
 	switch {
 	case i < nstd:
 		files := stdFileList()
@@ -293,7 +341,7 @@ func init() {
 		MinNT:  200,
 		Plan: func(tier string, seed uint64) int {
 			a, b, c := c12N(tier)
-			return a + b + c
+			return a + b + c + len(c12Fixtures())
 		},
 		Run: c12Run,
 	})
